@@ -75,6 +75,20 @@ class PlannerFacts:
         return out
 
 
+def second_visit_guarded(A: Analysis, F, conj) -> bool:
+    """The path condition says "second visit": `state == SECOND_VISIT`, or — LoweringState having exactly the two
+    members FIRST_VISIT and SECOND_VISIT — `state != FIRST_VISIT`."""
+    if ("eq(LoweringState.SECOND_VISIT,%s.state)" % F.lt, True) in conj:
+        return True
+    members = []
+    try:
+        cls = A.prog.cls("conductor.execution.planning.lowering.LoweringState")
+        members = [norm(t) for st in cls.node.body if isinstance(st, ast.Assign) for t in st.targets if isinstance(t, ast.Name)]
+    except Exception:
+        members = []
+    return sorted(members) == ["FIRST_VISIT", "SECOND_VISIT"] and ("eq(LoweringState.FIRST_VISIT,%s.state)" % F.lt, False) in conj
+
+
 def rules_planner_links(A: Analysis, rep, F: Optional[PlannerFacts] = None):
     """PL1, PL2, PL3, PL5."""
     F = F or PlannerFacts(A)
@@ -261,8 +275,7 @@ def rule_w1_planner(A: Analysis, rep, F: Optional[PlannerFacts] = None):
     pop = w.pop_node()
     for (cn, var, call, cls) in F.constructions:
         guards = A.path_guards(g, pop, cn, F.fi)
-        need = ("eq(LoweringState.SECOND_VISIT,%s.state)" % F.lt, True)
-        okg = bool(guards) and all(need in c for c in guards)
+        okg = bool(guards) and all(second_visit_guarded(A, F, c) for c in guards)
         rep.check(okg, "W1", "second-visit gate %s" % cls.rsplit(".", 1)[1], cn.ast,
                   "operations are constructed only on the second visit",
                   "operation construction is not guarded by `%s.state == LoweringState.SECOND_VISIT`" % F.lt)
@@ -416,7 +429,7 @@ def rule_pl9_snapshot(A: Analysis, rep, F: Optional[PlannerFacts] = None):
             sites.append(n)
     for n in sites:
         guards = A.path_guards(g, pop, n, fi)
-        rep.check(bool(guards) and all(need in c for c in guards), "PL9", "snapshot on second visit", n.ast,
+        rep.check(bool(guards) and all(second_visit_guarded(A, F, c) for c in guards), "PL9", "snapshot on second visit", n.ast,
                   "output paths are resolved after all dependencies were lowered",
                   "dependency/own output path is read outside the second-visit branch")
     rep.expect_min("PL9", 4)
